@@ -29,6 +29,37 @@ fn without_initiators(source: &[char]) -> Span {
     Span::new(actual_start, actual_end)
 }
 
+/// Follows Markdown's fenced code blocks through the lines of a comment.
+///
+/// A block opened with backticks is closed by backticks and one opened with tildes by tildes:
+/// the other kind of fence is ordinary content while a block is open.
+#[derive(Default)]
+struct CodeFenceTracker {
+    open_fence: Option<char>,
+}
+
+impl CodeFenceTracker {
+    /// Take in the next line of the comment (initiators included).
+    /// Returns whether the line is part of a fenced code block that is still open after it.
+    fn line_is_fenced(&mut self, line: &[char]) -> bool {
+        let actual = without_initiators(line);
+
+        let fence = match actual.get_content(line) {
+            ['`', '`', '`', ..] => Some('`'),
+            ['~', '~', '~', ..] => Some('~'),
+            _ => None,
+        };
+
+        match (self.open_fence, fence) {
+            (None, Some(_)) => self.open_fence = fence,
+            (Some(open), Some(fence)) if open == fence => self.open_fence = None,
+            _ => (),
+        }
+
+        self.open_fence.is_some()
+    }
+}
+
 fn is_comment_character(c: char) -> bool {
     matches!(c, '#' | '-' | '/' | '*' | '!')
 }
